@@ -4,7 +4,7 @@ package h2
 
 // C09: HTTP/2 relay flow control and frame sizes.
 //
-//vf:assume C09: one operation from an arbitrary pre-state (inductive step): 2 known streams (or none yet) + optionally a new one, queues of <=2 (quick) / <=3 (thorough) frames, windows arbitrary ints in (-2^31, 2^31), SETTINGS/WINDOW_UPDATE values as a conforming peer may send them (1..2^31-1; <=2^31-1)
+//vf:assume C09: one operation from an arbitrary pre-state (inductive step): 2 known streams (or none yet) + optionally a new one, queues of <=2 frames (thorough: <=3 on the first stream; <=3 on both did not finish in 20 minutes), windows arbitrary ints in (-2^31, 2^31), SETTINGS/WINDOW_UPDATE values as a conforming peer may send them (1..2^31-1; <=2^31-1)
 //vf:assume C09: DATA payload sizes from {0,1,2,5}; max frame size symbolic in [1,4] for the split harnesses (the code is size-generic; RFC minimum 16384 is outside the explored range)
 //vf:assume C09: lock-granular atomicity (flowMu critical sections); the writer goroutine and channel capacity are outside (output channel given capacity 64)
 
@@ -29,8 +29,8 @@ var vfSizes = []int{0, 1, 2, 5}
 func vfQueue(label string, id uint32, w *outputBuffer) []queuedFrame {
 	var fs []queuedFrame
 	maxQueued := 2
-	if vfrt.Thorough() {
-		maxQueued = 3
+	if vfrt.Thorough() && id == 1 {
+		maxQueued = 3 // three frames on both streams did not finish in 20 minutes
 	}
 	n := vfrt.Choice(label+"-queued", maxQueued+1)
 	for i := 0; i < n; i++ {
